@@ -176,6 +176,14 @@ def run(ctx):
             ps = list(p["criteria_range"]) if name == "MinMaxScaler" else ([p["value"]] if name == "AddValueToZero" else [])
             calls.append(("scale", (CODE[name], ps, TGT[p["target"]], c["matrix"], c["weights"])))
             plan.append((k, "scale"))
+            dts = c.get("dtypes") or []
+            if name == "PushNegatives" and p["target"] in ("matrix", "both") and dts and \
+                    all(t in ("int8", "int16", "int32", "int64") for t in dts):
+                # a matrix of signed integers: the integer-storage model (Model/IntStorage.v) at the width the
+                # repaired code computes in, cell for cell and exactly
+                for j in range(m):
+                    calls.append(("push_neg_int", (64, [int(r[j]) for r in c["matrix"]])))
+                    plan.append((k, ("intcol", j)))
         elif name == "CenitDistanceMatrixScaler":
             calls.append(("cenit", ([x == 1 for x in c["objectives"]], c["matrix"])))
             plan.append((k, "cenit"))
@@ -238,6 +246,12 @@ def run(ctx):
                 for i in range(n):
                     if not close_cells(ctx, c, f"cenit row {i}", a["matrix"][i], mo[i], 1e-13, 0):
                         break
+            elif tag[0] == "intcol":
+                j = tag[1]
+                got = [r[j] for r in a["matrix"]]
+                if [float(x) for x in mo] != got:
+                    ctx.disagree(c, {"what": f"PushNegatives on the integer criterion {j}", "impl": got, "model": mo})
+                ctx.count("integer_storage_model_columns")
             else:
                 kind, j = tag
                 if kind == "col" and tgt in ("matrix", "both"):
